@@ -279,3 +279,27 @@ Section Redeliver.
     destruct (it_src it =? s); simpl; [|exact IH]. destruct (eventually_accepted c it); simpl; [f_equal|]; exact IH.
   Qed.
 End Redeliver.
+
+(** FanOut with n subscribers on the internal GoChannel: what the subscribers of a topic receive
+    for a stream is n copies of every message that was eventually accepted, and nothing else *)
+Definition fanout_stream_copies (dec : N -> option envelope) (atoi : N -> option Z) (itoa : Z -> N) (rk : N)
+           (n : nat) (items : list item) : list (N * msg) :=
+  flat_map (fun x => match snd x with
+                     | [m] => map (pair (fst x)) (fanout_deliver n false m)
+                     | _ => []
+                     end)
+           (stream_accepted dec atoi itoa rk FreshCopy CFanOut items).
+
+Lemma flat_map_map {A B C} (f : A -> B) (g : B -> list C) l :
+  flat_map g (map f l) = flat_map (fun x => g (f x)) l.
+Proof. induction l as [|x l IH]; simpl; [reflexivity|]. now rewrite IH. Qed.
+
+Lemma fanout_stream_copies_spec dec atoi itoa rk n items :
+  fanout_stream_copies dec atoi itoa rk n items
+  = flat_map (fun it => repeat (it_src it, gochan_copy (it_msg it)) n)
+             (filter (eventually_accepted dec atoi itoa rk CFanOut) items).
+Proof.
+  unfold fanout_stream_copies. rewrite stream_passthrough_preserves by (right; reflexivity).
+  rewrite flat_map_map. apply flat_map_ext. intros it. simpl. unfold fanout_deliver.
+  induction n as [|n IHn]; simpl; [reflexivity|]. now rewrite IHn.
+Qed.
